@@ -250,15 +250,24 @@ func (w *World) enabled() []Event {
 		if !w.devAllowed(op.Inst) {
 			continue
 		}
+		faultOK := len(s.FaultLabels) == 0
+		for _, l := range s.FaultLabels {
+			if l == op.Label {
+				faultOK = true
+			}
+		}
 		if !op.Applied {
 			if s.SplitApply && op.Kind != "Watch" {
 				alts = append(alts, Event{Name: "apply:" + op.ID, tgt: op.Inst, run: func() { w.apply(op) }})
 			}
 			for _, k := range s.AllowErr {
 				k := k
+				if !faultOK {
+					break
+				}
 				alts = append(alts, Event{Name: "err:" + op.ID + ":" + k, tgt: op.Inst, run: func() { op.Fault = "err:" + k; op.resErr = errKind(k); w.answer(op) }})
 			}
-			if s.AllowLost && op.Kind != "Get" && op.Kind != "Watch" {
+			if s.AllowLost && faultOK && op.Kind != "Get" && op.Kind != "Watch" {
 				alts = append(alts, Event{Name: "lose:" + op.ID, tgt: op.Inst, run: func() {
 					w.apply(op)
 					op.Fault = "lost"
@@ -274,8 +283,8 @@ func (w *World) enabled() []Event {
 				alts = append(alts, Event{Name: fmt.Sprintf("delay:%s:%v", op.ID, L), tgt: op.Inst, run: func() { op.NotBefore = nb }})
 			}
 		}
-		if s.AllowHang && op.NotBefore < math.MaxInt64 {
-			alts = append(alts, Event{Name: "hang:" + op.ID, tgt: op.Inst, run: func() { op.NotBefore = math.MaxInt64; op.Fault = "hang" }})
+		if s.AllowHang && faultOK && op.NotBefore < math.MaxInt64 {
+			alts = append(alts, Event{Name: "hang:" + op.ID, tgt: op.Inst, run: func() { op.NotBefore = math.MaxInt64; op.Fault = "hang"; op.Deadline = 0 }})
 		}
 	}
 
